@@ -4,10 +4,14 @@
 (*   hist      a new history starts (fresh, empty table)                     *)
 (*   opbegin   an admin operation on list "l" is about to be called          *)
 (*   opdone    it returned: err (refused?), view = the list as               *)
-(*             Table.Snapshot() shows it now ([id, f] pairs), before/after = *)
-(*             the ids in the cells of the slice that was published when the *)
-(*             operation started, read through the very same slice header    *)
-(*             before and after the call (white box, VerifRawConfig)         *)
+(*             Table.Snapshot() shows it now ([id, f] pairs); snaps[x] = for *)
+(*             list x, the ids in the cells of EVERY slice the driver has    *)
+(*             seen published so far in this history (oldest first, the last *)
+(*             one is the slice published now), each read NOW through the    *)
+(*             very slice header (array, length) it had when it was          *)
+(*             published (white box, VerifRawConfig / VerifRawDests): what a *)
+(*             dispatcher that loaded that slice back then and is still      *)
+(*             iterating would read                                          *)
 (*   start     Dispatch of a class-c metric is about to be called (id d)     *)
 (*   end       it returned: vis = entries of the main list the metric was    *)
 (*             delivered to, in order; rw = rewriters applied, in order      *)
@@ -16,6 +20,10 @@
 (* returned and ended before operation hi+1 was called may only have loaded  *)
 (* a version in lo..hi.  The verdict of every clause is computed here, by    *)
 (* TLC; "bad" names the first clause that failed.                            *)
+(* SnapshotImmutable: ANY earlier published snapshot (pub[x][i] = its cells  *)
+(* as read when it was first seen), read again after any later operation,    *)
+(* still shows the same cells; and the slice published by an operation holds *)
+(* the list as the sequential semantics define it.                           *)
 (*   dead      (in end) number of sends of this dispatch that went into a    *)
 (*             destination whose relay had already been shut down by a       *)
 (*             delete; nothing reads that channel any more, the driver       *)
@@ -29,13 +37,14 @@ CONSTANT CheckCells, \* judge the white-box cell comparison (FALSE: only what tr
 
 TLog == ndJsonDeserialize("trace.ndjson")
 
-VARIABLES l, vers, lop, done, dlo, dcl, bad, kind
-tvars == <<l, vers, lop, done, dlo, dcl, bad, kind>>
+VARIABLES l, vers, lop, done, dlo, dcl, bad, kind, pub
+tvars == <<l, vers, lop, done, dlo, dcl, bad, kind, pub>>
 
 ASSUME TLCSet(1, 0)
 
 Lists == {"main", "rw", "bl", "agg"}
 Empty == [x \in Lists |-> <<>>]
+NoSnaps == [x \in Lists |-> <<>>]
 Ev == TLog[l]
 Is(e) == l <= Len(TLog) /\ Ev.ev = e /\ l' = l + 1
 Pairs(v) == [i \in 1..Len(v) |-> [id |-> v[i][1], f |-> v[i][2]]]
@@ -43,31 +52,41 @@ Last == vers[Len(vers)]
 First(cl) == IF cl = <<>> THEN "" ELSE cl[1]
 
 TInit == l = 1 /\ vers = <<Empty>> /\ lop = [l |-> "main", op |-> "none"] /\ done = 1
-         /\ dlo = <<>> /\ dcl = <<>> /\ bad = "" /\ kind = ""
+         /\ dlo = <<>> /\ dcl = <<>> /\ bad = "" /\ kind = "" /\ pub = NoSnaps
 
 THist == Is("hist") /\ vers' = <<Empty>> /\ lop' = [l |-> "main", op |-> "none"] /\ done' = 1
-         /\ dlo' = <<>> /\ dcl' = <<>> /\ bad' = "" /\ kind' = Ev.kind
+         /\ dlo' = <<>> /\ dcl' = <<>> /\ bad' = "" /\ kind' = Ev.kind /\ pub' = NoSnaps
 
 TOpBegin == /\ Is("opbegin")
             /\ vers' = Append(vers, [Last EXCEPT ![Ev.l] = ApplyOp(@, Ev)])
             /\ lop' = Ev
-            /\ UNCHANGED <<done, dlo, dcl, bad, kind>>
+            /\ UNCHANGED <<done, dlo, dcl, bad, kind, pub>>
+
+\* every snapshot published earlier reads now as it read when it was first seen
+OldIntact(sn) == \A x \in Lists : /\ Len(sn[x]) >= Len(pub[x])
+                                   /\ \A i \in 1..Len(pub[x]) : sn[x][i] = pub[x][i]
+\* the slice that is published now for the list operated on holds that list
+NewIsList(sn, x) == sn[x] # <<>> /\ sn[x][Len(sn[x])] = Ids(Last[x])
 
 TOpDone ==
   /\ Is("opdone")
   /\ LET prev == vers[Len(vers) - 1][lop.l]
+         sn == Ev.snaps
          clauses == <<
            IF Ev.err # OpErr(prev, lop) THEN "ResultOK" ELSE "",
            IF Pairs(Ev.view) # Last[lop.l] THEN "ViewOK" ELSE "",
-           IF CheckCells /\ Ev.before # Ev.after THEN "SnapshotImmutable" ELSE "" >> IN
-     bad' = First(SelectSeq(clauses, LAMBDA x : x # ""))
+           IF CheckCells /\ ~OldIntact(sn) THEN "SnapshotImmutable" ELSE "",
+           IF CheckCells /\ ~NewIsList(sn, lop.l) THEN "ViewOK" ELSE "" >> IN
+     /\ bad' = First(SelectSeq(clauses, LAMBDA x : x # ""))
+     /\ pub' = [x \in Lists |-> IF Len(sn[x]) > Len(pub[x])
+                                 THEN pub[x] \o SubSeq(sn[x], Len(pub[x]) + 1, Len(sn[x])) ELSE pub[x]]
   /\ done' = Len(vers)
   /\ UNCHANGED <<vers, lop, dlo, dcl, kind>>
 
 TStart == /\ Is("start")
           /\ dlo' = (Ev.d :> done) @@ dlo
           /\ dcl' = (Ev.d :> Ev.c) @@ dcl
-          /\ UNCHANGED <<vers, lop, done, bad, kind>>
+          /\ UNCHANGED <<vers, lop, done, bad, kind, pub>>
 
 MainVers == [x \in 1..Len(vers) |-> vers[x]["main"]]
 
@@ -85,7 +104,7 @@ TEnd ==
             THEN (IF CheckDead /\ Ev.dead > 0 THEN "NoDeadSend" ELSE "") ELSE "Atomic"
   /\ dlo' = [x \in (DOMAIN dlo) \ {Ev.d} |-> dlo[x]]
   /\ dcl' = [x \in (DOMAIN dcl) \ {Ev.d} |-> dcl[x]]
-  /\ UNCHANGED <<vers, lop, done, kind>>
+  /\ UNCHANGED <<vers, lop, done, kind, pub>>
 
 TNext == THist \/ TOpBegin \/ TOpDone \/ TStart \/ TEnd
 TSpec == TInit /\ [][TNext]_tvars
